@@ -295,6 +295,10 @@ impl Runner {
                 let v = slot.coll.iter();
                 if slot.coll.ordered() { show_list(&v) } else { show_sorted(v) }
             }
+            ["intoiter"] => {
+                let v = slot.coll.into_iter_all();
+                if slot.coll.ordered() { show_list(&v) } else { show_sorted(v) }
+            }
             ["drain"] => {
                 let v = slot.coll.drain();
                 let ok = if slot.kind == "hs" {
@@ -336,7 +340,7 @@ fn gen_case(rng: &mut Rng, arity: usize, kind: &str, steps: usize, dom: u64, mal
             10 => format!("{slot} drain"),
             11..=12 => format!("{slot} len"),
             13..=14 => format!("{slot} contains {}", show_tup(&gen_tup(rng, arity, dom))),
-            15 => format!("{slot} iter"),
+            15 => format!("{slot} {}", if rng.chance(1, 2) { "iter" } else { "intoiter" }),
             16 if kind != "col" => format!("{slot} get {}", show_tup(&gen_tup(rng, arity, dom))),
             17 => format!("{slot} isempty"),
             _ if two => "eq".to_string(),
@@ -353,6 +357,7 @@ fn gen_case(rng: &mut Rng, arity: usize, kind: &str, steps: usize, dom: u64, mal
         ls.push("A frobnicate".into());
     }
     ls.push("A iter".into());
+    ls.push("A intoiter".into());
     if two {
         ls.push("B iter".into());
         ls.push("eq".into());
